@@ -741,7 +741,8 @@ def run(ctx):
     for it in range(ctx.n(2, 12)):
         L.release()
         cfg, d, order = random_config(ctx, it, ["filter"])
-        cfg = dataclasses.replace(cfg, solver=gen.pick(rng, ["mle", "mle_nocorr"]), init="inexact", inexact_eps=2.0**-6, damp=float(gen.pick(rng, [0.0, 2.0**-8])))
+        # (alternating, so that the corrected and the uncorrected estimator are both reached in every run)
+        cfg = dataclasses.replace(cfg, solver=["mle", "mle_nocorr"][it % 2], init="inexact", inexact_eps=2.0**-6, damp=float(gen.pick(rng, [0.0, 2.0**-8])))
         field, u0s, t0 = make_problem(ctx, d, order)
         hs = [float(2.0 ** rng.integers(-4, 0)) for _ in range(int(rng.integers(2, 5)))]
         value_constraint_init(ctx, cfg, d, field, u0s, t0, hs)
